@@ -64,3 +64,28 @@ package diagnostic
 //@ nobody
 //@ method go/ast.Node End fn
 //@ method go/ast.Node Pos fn
+
+//@ -- C14: mapping a package-independent position back into the local file set. A "fake" file (created here for a
+//@ -- transitively imported package, or injected by the archive importer) has one line per offset: lines[k] == k,
+//@ -- and room for 64K lines, so padding it up to the reported line always succeeds and the result is the start of
+//@ -- exactly that line.
+//@ define (fakeOK f) (and (not (= f nil)) (= f.size 65536) (>= (len f.lines) 1) (<= (len f.lines) 65536)
+//@    (forall ((k Int)) (=> (and (<= 0 k) (< k (len f.lines))) (= (idx f.lines k) k))))
+//@ define (filesOK e) (and (not (= e.files nil))
+//@    (forall ((n Str)) (=> (mapin e.files n)
+//@       (and (not (= (. (mapget e.files n) file) nil)) (=> (. (mapget e.files n) isFake) (fakeOK (. (mapget e.files n) file))))))
+//@    (forall ((n1 Str) (n2 Str)) (=> (and (mapin e.files n1) (mapin e.files n2) (not (= (. (mapget e.files n1) file) (. (mapget e.files n2) file))))
+//@       (not (= (s.arr (. (mapget e.files n1) file lines)) (s.arr (. (mapget e.files n2) file lines)))))))
+
+//@ func (*Engine).toPos
+//@ prop C14
+//@ nopanic
+//@ requires (and (not (= e nil)) (not (= e.pass nil)) (not (= e.pass.Pass nil)) (not (= e.pass.Fset nil)) (filesOK e) (>= position.Line 1) (< position.Line 65536))
+//@ modifies (map e.files) token.File token.FileSet []int
+//@ ensures fake-files-resolve-to-the-start-of-the-reported-line (let ((info (mapget e.files position.Filename)))
+//@    (and (mapin e.files position.Filename)
+//@         (=> (. info isFake) (and (>= (len (. info file lines)) position.Line) (= result (+ (. info file base) (- position.Line 1)))))))
+//@ ensures file-table-stays-consistent (filesOK e)
+//@ loop 0 invariant filling (forall ((k Int)) (=> (and (<= 0 k) (<= k rangeindex)) (= (idx fakeLines k) k)))
+//@ loop 0 invariant shape (and (= (len fakeLines) position.Line) (fresh (s.arr fakeLines)) (<= -1 rangeindex) (< rangeindex (len fakeLines)) (filesOK e) (not (mapin e.files position.Filename)))
+//@ loop 1 invariant padding (and (filesOK e) (mapin e.files position.Filename) (= (mapget e.files position.Filename) info) (. info isFake) (fakeOK (. info file)) (= i (len (. info file lines))))
